@@ -243,9 +243,11 @@ class Interp:
     def deref(self, st: St, v: V) -> V:
         return self.place_get(st, v) if isinstance(v, PlaceV) else v
 
+    MUTABLE_EXTRA: tuple = ()
+
     @staticmethod
     def is_mutable(v: V) -> bool:
-        return isinstance(v, (DictV, SetV, ObjV, SemV, LockV, EventV)) or (isinstance(v, SeqV) and v.mutable)
+        return isinstance(v, (DictV, SetV, ObjV, SemV, LockV, EventV) + Interp.MUTABLE_EXTRA) or (isinstance(v, SeqV) and v.mutable)
 
     # -- name resolution -------------------------------------------------------------------------------
     def lookup(self, st: St, fr: Frame, name: str) -> V:
@@ -329,7 +331,7 @@ class Interp:
     def ev_List(self, st, fr, e):
         if e.elts:
             return [(s, vs if isinstance(vs, Exit) else TupleV(vs)) for s, vs in self.ev_seq(st, fr, e.elts)]
-        return [(st, SeqV(0, [fresh("lst", z3.ArraySort(I, I))], IntL(), mutable=True))]
+        return self.theory.empty_list(st, fr, getattr(fr, "hint", None))
 
     def ev_Dict(self, st, fr, e):
         if not e.keys:
@@ -589,7 +591,7 @@ class Interp:
             raise Unsupported(f"attribute {attr} on detached object value")
         if isinstance(v, (RefV, ExcV, CoroV, FuncV, TupleV, SeqV, KwV, StrV, IntV, BytesV, CollV, GenV, BoolV, ClassV)):
             return self.theory.value_attr(st, fr, v, attr)
-        raise Unsupported(f"attribute {attr} on {type(v).__name__}")
+        return self.theory.value_attr(st, fr, v, attr)
 
     def ev_Subscript(self, st, fr, e):
         out = []
@@ -696,7 +698,11 @@ class Interp:
                 rest_kw.append(sk)
         if isinstance(f, FuncV) and f.finfo is not None:
             if rest_kw:
-                raise Unsupported("**opaque into repo function")
+                # **<symbolic dict> is only accepted by a callee that collects it in its own **kwargs
+                kwarg = f.finfo.node.args.kwarg
+                if kwarg is None or len(rest_kw) != 1 or kws:
+                    raise Unsupported("**opaque into repo function")
+                kws = {"**": self.deref(st, rest_kw[0].v)}
             return self.call_repo(st, fr, f.finfo, f.selfv, pos, kws)
         if isinstance(f, FuncV) and f.node is not None:
             return self.call_closure(st, fr, f, pos, kws)
@@ -723,6 +729,13 @@ class Interp:
                 inner = self.deref(st, p.v)
                 if isinstance(inner, TupleV):
                     flat.extend(inner.items)
+                elif a.vararg is not None and len(flat) >= len(params) and (var_seq is not None or any(isinstance(q, StarV) for q in flat[len(params):]) or not isinstance(inner, SeqV)
+                                                                              or any(isinstance(q, StarV) for q in pos[pos.index(p) + 1:])):
+                    # several / opaque starred pieces collected by the callee's *args: kept as star markers inside the tuple
+                    if var_seq is not None:
+                        flat.append(StarV(var_seq, 1))
+                        var_seq = None
+                    flat.append(StarV(inner, 1))
                 elif isinstance(inner, SeqV):
                     if a.vararg is not None and len(flat) >= len(params) and var_seq is None:
                         var_seq = inner
@@ -757,7 +770,12 @@ class Interp:
             if p.arg not in bound and d is not None:
                 bound[p.arg] = self._default(st, fr_for_defaults, d)
         if a.kwarg is not None:
-            bound[a.kwarg.arg] = KwV(kws)
+            if "**" in kws:
+                bound[a.kwarg.arg] = kws.pop("**")
+                if kws:
+                    raise Unsupported("mixed explicit and ** keyword arguments")
+            else:
+                bound[a.kwarg.arg] = KwV(kws)
             kws = {}
         if kws:
             raise Unsupported(f"unexpected keyword arguments {list(kws)}")
@@ -940,6 +958,24 @@ class Interp:
         return self._exits(self.ev(st, fr, n.value), lambda s, v: self.assign(s, fr, n.target, v))
 
     def st_Assign(self, st, fr, n):
+        # pairwise evaluation of `a, b = x, y` so that each display knows the name it is bound to (typing hint)
+        if (len(n.targets) == 1 and isinstance(n.targets[0], ast.Tuple) and isinstance(n.value, ast.Tuple)
+                and len(n.targets[0].elts) == len(n.value.elts) and all(isinstance(t, ast.Name) for t in n.targets[0].elts)):
+            cur = [(st, NORMAL)]
+            for t, ve in zip(n.targets[0].elts, n.value.elts):
+                nxt = []
+                for s, ex in cur:
+                    if ex.kind != Exit.NORMAL:
+                        nxt.append((s, ex))
+                        continue
+                    fr.hint = t.id
+                    res = self.ev(s, fr, ve)
+                    fr.hint = None
+                    nxt.extend(self._exits(res, lambda s2, v, t=t: self.assign(s2, fr, t, v)))
+                cur = nxt
+            return cur
+        fr.hint = n.targets[0].id if len(n.targets) == 1 and isinstance(n.targets[0], ast.Name) else None
+
         def cont(s, v):
             cur = [(s, NORMAL)]
             for t in n.targets:
